@@ -67,6 +67,13 @@ def stage_a(prop, module, theorems, log):
     """returns dict(ok, obligations, discharged, failures[], axioms{}, build_s)"""
     t0 = time.time()
     res = {"ok": True, "obligations": len(theorems), "discharged": 0, "failures": [], "axioms": {}}
+    # regenerate the arithmetic kernels from /repo's current source (DESIGN.md §2.4); VK.Props.Kernels proves them
+    # equal to the model's definitions, so a changed kernel breaks the build below
+    k = subprocess.run([sys.executable, os.path.join(VERIF, "tools", "extract_kernels.py")], stdout=subprocess.PIPE,
+                       stderr=subprocess.STDOUT, timeout=120)
+    res["kernel_extraction"] = {0: "regenerated from the current source (or unchanged)",
+                                3: "fell back to the committed kernels: "}.get(k.returncode, f"exit {k.returncode}: ") \
+        + (k.stdout.decode(errors="replace").strip()[-300:] if k.returncode != 0 else "")
     p = subprocess.run(["lake", "build", module, "driver"], cwd=LEAN_DIR, stdout=subprocess.PIPE,
                        stderr=subprocess.STDOUT, timeout=3000)
     res["build_s"] = round(time.time() - t0, 1)
@@ -330,6 +337,7 @@ def run_check(modname, tier, seed, replay=None):
         "theorems": mod.THEOREMS,
         "axioms": sa["axioms"],
         "lean_build_s": sa.get("build_s"),
+        "kernel_extraction": sa.get("kernel_extraction"),
         "proof_failures": sa["failures"],
         "leanchecker": lc,
         "evaluations": len(results),
